@@ -707,7 +707,7 @@ impl<'a, C: OrdColl> OrdRun<'a, C> {
         let umax = self.u.min(512);
         for k in -1..=umax {
             let coll = &self.coll;
-            let (r, _, _) = lib_call(None, u64::MAX, false, || coll.get(k));
+            let (r, _, _) = lib_call(None, crate::run::INTERNAL_BUDGET, false, || coll.get(k));
             let got = match r {
                 Ok(g) => g,
                 Err(e) => {
@@ -745,7 +745,7 @@ impl<'a, C: OrdColl> OrdRun<'a, C> {
         for (k, h) in held {
             let Some(serial) = self.model.get(&k).copied() else { continue };
             let coll = &self.coll;
-            let (r, _, _) = lib_call(None, u64::MAX, false, || (coll.at(h), coll.first_index_less(k)));
+            let (r, _, _) = lib_call(None, crate::run::INTERNAL_BUDGET, false, || (coll.at(h), coll.first_index_less(k)));
             let (obs, h2) = match r {
                 Ok(x) => x,
                 Err(e) => {
@@ -777,7 +777,7 @@ impl<'a, C: OrdColl> OrdRun<'a, C> {
         let keys: Vec<i32> = self.model.keys().copied().collect();
         for k in keys {
             let coll = &self.coll;
-            let (r, _, _) = lib_call(None, u64::MAX, false, || coll.first_index_less(k));
+            let (r, _, _) = lib_call(None, crate::run::INTERNAL_BUDGET, false, || coll.first_index_less(k));
             if let Ok(h) = r {
                 if h != EMPTY_REF {
                     self.held.insert(k, h);
@@ -983,7 +983,7 @@ impl<'a, C: OrdColl> OrdRun<'a, C> {
         }
         if C::IS_TREE && self.rc.obs(17) {
             let coll = &self.coll;
-            let (r, _, _) = lib_call(None, u64::MAX, false, || coll.first_index_less(k));
+            let (r, _, _) = lib_call(None, crate::run::INTERNAL_BUDGET, false, || coll.first_index_less(k));
             if let Ok(h) = r {
                 if h != EMPTY_REF {
                     self.held.insert(k, h);
@@ -1042,7 +1042,7 @@ impl<'a, C: OrdColl> OrdRun<'a, C> {
         let umax = self.u.min(512);
         for k in -1..=umax {
             let coll = &self.coll;
-            let (r, _, _) = lib_call(None, u64::MAX, false, || coll.get(k));
+            let (r, _, _) = lib_call(None, crate::run::INTERNAL_BUDGET, false, || coll.get(k));
             let got = r.map_err(|e| format!("get_value({}) failed: {:?}", k, e))?;
             let exp = model.get(&k).copied();
             let ok = match (&got, exp) {
@@ -1054,7 +1054,7 @@ impl<'a, C: OrdColl> OrdRun<'a, C> {
                 return Err(format!("get_value({}) = {:?}, reference {:?}", k, got, exp));
             }
             // handle-based view must agree as well
-            let (r, _, _) = lib_call(None, u64::MAX, false, || {
+            let (r, _, _) = lib_call(None, crate::run::INTERNAL_BUDGET, false, || {
                 let h = coll.first_index_less(k);
                 if h == EMPTY_REF {
                     None
@@ -1220,7 +1220,7 @@ impl<'a, C: OrdColl> OrdRun<'a, C> {
     fn op_isempty(&mut self, i: usize) -> Step {
         self.out.callbacks.push(0);
         let coll = &self.coll;
-        let (r, _, _) = lib_call(None, u64::MAX, false, || coll.is_empty());
+        let (r, _, _) = lib_call(None, crate::run::INTERNAL_BUDGET, false, || coll.is_empty());
         let pn = self.p_lookup;
         let got = match r {
             Ok(g) => g,
@@ -1263,7 +1263,7 @@ impl<'a, C: OrdColl> OrdRun<'a, C> {
         }
         trace!(self, "#{} clear()", i);
         let coll = &mut self.coll;
-        let (r, _, _) = lib_call(None, u64::MAX, false, || coll.clear());
+        let (r, _, _) = lib_call(None, crate::run::INTERNAL_BUDGET, false, || coll.clear());
         if let Err(e) = r {
             return self.on_call_err(i, e, &[12], "clear");
         }
